@@ -366,6 +366,118 @@ func rewriteFile(pkg *packages.Package, f *ast.File, fn, rel string, wantP bool,
 	if wantP {
 		var fstack []string
 		var visit func(n ast.Node)
+		// splitRMW turns a read-modify-write of one location (x.f = append(x.f, v), x.n = x.n + 1, x.n += d,
+		// x.n++) into read, pre-emption point, write: without the lock that should guard it, another
+		// task's update of the same location can then fall between the two halves and be lost - as it can
+		// on real hardware.  Same line, same evaluation order (no calls on the left-hand side).
+		hasCall := func(e ast.Expr) bool {
+			found := false
+			ast.Inspect(e, func(n ast.Node) bool {
+				switch n.(type) {
+				case *ast.CallExpr, *ast.FuncLit:
+					found = true
+				}
+				return !found
+			})
+			return found
+		}
+		text := func(a, b token.Pos) string { return string(srcb[off(a):off(b)]) }
+		oneLine := func(a, b token.Pos) bool { return !strings.Contains(text(a, b), "\n") }
+		newSite := func(pos token.Pos, fname string) int {
+			pp := fset.Position(pos)
+			id := *nextSite
+			*nextSite++
+			rep.Sites = append(rep.Sites, site{id, rel, pp.Line, pp.Column, fname + " (rmw)"})
+			return id
+		}
+		splitRMW := func(st ast.Stmt, fname string) {
+			switch a := st.(type) {
+			case *ast.AssignStmt:
+				if len(a.Lhs) != 1 || len(a.Rhs) != 1 {
+					return
+				}
+				lhs, rhs := a.Lhs[0], a.Rhs[0]
+				switch l := lhs.(type) {
+				case *ast.SelectorExpr, *ast.IndexExpr:
+				case *ast.Ident:
+					if l.Name == "_" {
+						return
+					}
+				default:
+					return
+				}
+				if hasCall(lhs) || !oneLine(lhs.Pos(), rhs.Pos()) {
+					return
+				}
+				ls := types.ExprString(lhs)
+				op := ""
+				switch a.Tok {
+				case token.ASSIGN:
+					// only when the right-hand side reads the same location
+					reads := false
+					ast.Inspect(rhs, func(n ast.Node) bool {
+						if e, ok := n.(ast.Expr); ok && !reads {
+							switch e.(type) {
+							case *ast.SelectorExpr, *ast.IndexExpr, *ast.Ident:
+								if types.ExprString(e) == ls {
+									reads = true
+								}
+							}
+						}
+						return !reads
+					})
+					if !reads {
+						return
+					}
+				case token.ADD_ASSIGN:
+					op = "+"
+				case token.SUB_ASSIGN:
+					op = "-"
+				default:
+					return
+				}
+				// the right-hand side must not hold a function literal: its body is instrumented separately
+				lit := false
+				ast.Inspect(rhs, func(n ast.Node) bool {
+					if _, ok := n.(*ast.FuncLit); ok {
+						lit = true
+					}
+					return !lit
+				})
+				if lit {
+					return
+				}
+				id := newSite(a.Pos(), fname)
+				tmp := fmt.Sprintf("vsimT%d", id)
+				lt := text(lhs.Pos(), lhs.End())
+				if op == "" {
+					edits = append(edits, edit{off(a.Pos()), 0, fmt.Sprintf("{%s := ", tmp)})
+					edits = append(edits, edit{off(lhs.Pos()), off(rhs.Pos()) - off(lhs.Pos()), ""})
+					edits = append(edits, edit{off(a.End()), 0, fmt.Sprintf("; %s.P(%d); %s = %s}", rtAlias, id, lt, tmp)})
+				} else {
+					edits = append(edits, edit{off(a.Pos()), 0, fmt.Sprintf("{%s := %s %s (", tmp, lt, op)})
+					edits = append(edits, edit{off(lhs.Pos()), off(rhs.Pos()) - off(lhs.Pos()), ""})
+					edits = append(edits, edit{off(a.End()), 0, fmt.Sprintf("); %s.P(%d); %s = %s}", rtAlias, id, lt, tmp)})
+				}
+			case *ast.IncDecStmt:
+				switch a.X.(type) {
+				case *ast.SelectorExpr, *ast.IndexExpr:
+				default:
+					return // a plain counter variable: loop indices and the like
+				}
+				if hasCall(a.X) || !oneLine(a.Pos(), a.End()) {
+					return
+				}
+				id := newSite(a.Pos(), fname)
+				tmp := fmt.Sprintf("vsimT%d", id)
+				lt := text(a.X.Pos(), a.X.End())
+				op := "+"
+				if a.Tok == token.DEC {
+					op = "-"
+				}
+				edits = append(edits, edit{off(a.Pos()), off(a.End()) - off(a.Pos()), fmt.Sprintf("{%s := %s; %s.P(%d); %s = %s %s 1}", tmp, lt, rtAlias, id, lt, tmp, op)})
+			}
+		}
 		addSites := func(list []ast.Stmt, fname string) {
 			for _, s := range list {
 				switch s.(type) {
@@ -378,6 +490,7 @@ func rewriteFile(pkg *packages.Package, f *ast.File, fn, rel string, wantP bool,
 				rep.Sites = append(rep.Sites, site{id, rel, p.Line, p.Column, fname})
 				edits = append(edits, edit{off(s.Pos()), 0, fmt.Sprintf("%s.P(%d);", rtAlias, id)})
 				needRT = true
+				splitRMW(s, fname)
 			}
 		}
 		visit = func(n ast.Node) {
